@@ -15,8 +15,12 @@ import (
 
 func c11Opts(r *mon.RNG, i int) *gram.GenOpts {
 	prof := []int{gram.ProfStateful, gram.ProfStateful, gram.ProfDefault, gram.ProfLower, gram.ProfScanCfg}[i%5]
-	return &gram.GenOpts{Profile: prof, MaxProds: 5, Budget: 14 + r.Intn(12), Depth: 2 + r.Intn(3), TokKinds: false, Unions: true,
+	o := &gram.GenOpts{Profile: prof, MaxProds: 5, Budget: 14 + r.Intn(12), Depth: 2 + r.Intn(3), TokKinds: false, Unions: true,
 		SharePrefix: 7, CaptureBias: 3, SubBias: 7, AllowBang: false, ForcePos: true, NamesElided: i%9 == 8}
+	if o.NamesElided {
+		o.Profile = gram.ProfStateful // only this profile has elided token types a grammar can name
+	}
+	return o
 }
 
 // c11Invariants checks the model-free structural invariants against the raw
